@@ -62,7 +62,7 @@ class C18(Prop):
 
 class C19(Prop):
     cmd = "c19"
-    cases = {"quick": 40000, "thorough": 1500000}
+    cases = {"quick": 40000, "thorough": 3000000}
     rule = ("decimal strings with <= 15 significant digits (9-chains, ties, zeros after the point, magnitudes 1e-7..1e15, negatives) x "
             "19 patterns, through Cell::get_formatted_value and to_formatted_string; every built-in format id x 14 numbers; text under "
             "General; distinct = distinct (bits, pattern, path) triples")
@@ -85,7 +85,7 @@ class C19(Prop):
 
 class C20(Prop):
     cmd = "c20"
-    cases = {"quick": 1200, "thorough": 30000}
+    cases = {"quick": 1200, "thorough": 600000}
     rule = ("random sparse sheets (1-3 sheets, any active tab, gaps, text with commas / quotes / CR / LF / CRLF / tabs / padding / "
             "per-encoding non-ASCII text, numbers, booleans) x all 60 option combinations (10 encodings x trim x wrap none/\"/'); "
             "distinct = distinct (options, grid) by content hash")
@@ -105,7 +105,7 @@ class C20(Prop):
 
 class C01(Prop):
     cmd = "c01"
-    cases = {"quick": 1500, "thorough": 25000}
+    cases = {"quick": 1500, "thorough": 150000}
     rule = ("random workbooks (1-4 hostile sheet names; dense, sparse and grid-edge positions up to XFD1048576; text from a hostile "
             "alphabet incl. XML specials, padding, CR/LF, non-BMP, escape look-alikes, 32767-char strings, duplicates; rich text; random-bit "
             "f64, subnormals, 15-17 digit decimals; booleans; all 7 errors; formulas with cached results of every kind) saved with "
@@ -117,7 +117,7 @@ class C01(Prop):
 
 class C05(Prop):
     cmd = "c05"
-    cases = {"quick": 800, "thorough": 8000}
+    cases = {"quick": 800, "thorough": 60000}
     rule = ("1-400 styles per workbook from the product of font/fill/border/alignment/number-format/protection attributes, near-duplicate "
             "families differing in one attribute and adjacent-field collision candidates, assigned to cells, rectangular ranges, rows and "
             "columns (runs of equal columns, runs broken by one attribute); 3 save/load generations; distinct by hash of the pre-save dump")
@@ -127,7 +127,7 @@ class C05(Prop):
 
 class C06(Prop):
     cmd = "c06"
-    cases = {"quick": 800, "thorough": 10000}
+    cases = {"quick": 800, "thorough": 40000}
     rule = ("1-6 sheets with hostile names, hidden/veryHidden, add/remove/rename before saving, active tab anywhere (also chosen before a "
             "removal); per sheet 0-5 (1 in 5 workbooks: 0-40) merges, hyperlinks, comments, validations, conditional formats, defined "
             "names, plus auto-filter, tab colour, panes, page setup, header/footer, protection; every payload carries a unique id; each "
@@ -175,7 +175,7 @@ class C04(Prop):
 
 class C12(Prop):
     cmd = "c12"
-    cases = {"quick": 600, "thorough": 12000}
+    cases = {"quick": 600, "thorough": 120000}
     rule = ("histories of 4-30 operations over up to 4 workbook objects (set / overwrite / delete text and rich text, remove rows, columns, "
             "sheets, clone, reload-and-continue, save with either writer); every string carries a unique id; non-trivial = at least one save; "
             "distinct by hash of the history")
@@ -208,7 +208,7 @@ class Guarded(Prop):
 
 class C07(Prop):
     cmd = "c07"
-    cases = {"quick": 1500, "thorough": 40000}
+    cases = {"quick": 1500, "thorough": 1500000}
     rule = ("1-3 sheets with 5-30 cells (unique tokens, constant formulas, hyperlinks, a font-size style tag), merges, conditional-format "
             "ranges, auto-filter, comments, row heights, column widths; 1 in 6 workbooks placed next to XFD1048576; histories of 1-40 "
             "operations (insert/remove rows/columns at workbook and sheet level with p at the first line / inside / right behind the "
@@ -221,7 +221,7 @@ class C07(Prop):
 
 class C08(Guarded):
     cmd = "c08"
-    cases = {"quick": 4000, "thorough": 150000}
+    cases = {"quick": 4000, "thorough": 2000000}
     rule = ("3-8 formulas per workbook generated from an AST grammar (depth 1-4: operators, unary signs, percent, nested functions, unions, "
             "intersections, literals, relative/absolute/mixed references, ranges, whole rows/columns, qualified and quoted qualifiers, names, "
             "array constants, structured and external references) plus 0-3 defined names, on 3-4 sheets; 1-6 workbook-level inserts/removes; "
@@ -234,7 +234,7 @@ class C08(Guarded):
 
 class C09(Guarded):
     cmd = "c09"
-    cases = {"quick": 20000, "thorough": 400000}
+    cases = {"quick": 20000, "thorough": 5000000}
     rule = ("one formula per case from the C08 AST grammar (depth 1-6, base grammar plus at most two extra features; half of the cases with references "
             "at the grid limits); identity through set_formula + set_coordinate(same), through an insert/remove that concerns none of its references, "
             "and two translations (dc, dr) incl. moves to the grid corners; distinct by formula text")
@@ -244,7 +244,7 @@ class C09(Guarded):
 
 class C10(Prop):
     cmd = "c10"
-    cases = {"quick": 3000, "thorough": 60000}
+    cases = {"quick": 3000, "thorough": 800000}
     rule = ("histories of 1-60 operations on one sheet (dense 6x7 or sparse 14x16 area): get_cell_mut with and without a value, set_cell, remove_cell, set_style, "
             "set_style_by_range (rectangular), insert/remove rows and columns, move/copy range, cleanup, copy_row/col_styling; all invariants evaluated after every "
             "operation, exactly-once emission checked on the saved sheet XML after every 4th; distinct by hash of the history")
